@@ -114,31 +114,49 @@ Lemma fill_loop_at k n pre post v i : i = length pre ->
 Proof. intros ->. apply fill_loop_gen. Qed.
 
 (* equality loop: the result is list equality; the events are reads of the compared prefixes *)
-Fixpoint list_eqb (a b : list V) : bool :=
+(* list equality under the element type's operator== [veq] (applied as veq a_i b_i; it need not be reflexive,
+   symmetric or Leibniz equality) *)
+Fixpoint list_eqb (veq : V -> V -> bool) (a b : list V) : bool :=
   match a, b with
   | [], [] => true
-  | x :: a', y :: b' => N.eqb x y && list_eqb a' b'
+  | x :: a', y :: b' => veq x y && list_eqb veq a' b'
   | _, _ => false
   end.
-Lemma list_eqb_eq a b : list_eqb a b = true <-> a = b.
+Lemma list_eqb_eq veq : (forall x y, veq x y = true <-> x = y) -> forall a b, list_eqb veq a b = true <-> a = b.
 Proof.
-  revert b; induction a as [|x a IH]; intros [|y b]; cbn [list_eqb]; try (split; congruence).
-  rewrite andb_true_iff, N.eqb_eq, IH. split; [intros [-> ->]; reflexivity | intros H; inversion H; auto].
+  intros Hv a. induction a as [|x a IH]; intros [|y b]; cbn [list_eqb]; try (split; congruence).
+  rewrite andb_true_iff, Hv, IH. split; [intros [-> ->]; reflexivity | intros H; inversion H; auto].
+Qed.
+Lemma list_eqb_length veq a b : list_eqb veq a b = true -> length a = length b.
+Proof.
+  revert b; induction a as [|x a IH]; intros [|y b]; cbn [list_eqb length]; try congruence.
+  intros H. apply andb_true_iff in H. destruct H as [_ H]. now rewrite (IH b H).
+Qed.
+Lemma list_eqb_spec veq a b : list_eqb veq a b = true <->
+  length a = length b /\ forall i, i < length a -> veq (nth i a 0%N) (nth i b 0%N) = true.
+Proof.
+  revert b; induction a as [|x a IH]; intros [|y b]; cbn [list_eqb length].
+  - split; [intros _; split; [reflexivity | intros i Hi; lia] | reflexivity].
+  - split; [discriminate | intros [H _]; discriminate].
+  - split; [discriminate | intros [H _]; discriminate].
+  - rewrite andb_true_iff, IH. split.
+    + intros (Hx & Hl & Hn). split; [lia|]. intros [|i] Hi; [exact Hx | apply Hn; lia].
+    + intros (Hl & Hn). split; [apply (Hn 0); lia|]. split; [lia|]. intros i Hi. apply (Hn (S i)). lia.
 Qed.
 
 Definition use_only (an bn : nm) (lo hi : nat) (e : list ev) : Prop :=
   Forall (fun x => exists j, lo <= j < hi /\ (x = EUse (an j) \/ x = EUse (bn j))) e.
 
-Lemma eq_loop_gen : forall ea eb an bn pa qa pb qb,
+Lemma eq_loop_gen veq : forall ea eb an bn pa qa pb qb,
   length ea = length eb -> length pa = length pb ->
-  exists e, eq_loop (length ea) (length pa) an bn (pa ++ map Some ea ++ qa) (pb ++ map Some eb ++ qb) =
-            Ok (list_eqb ea eb, e) /\ use_only an bn (length pa) (length pa + length ea) e.
+  exists e, eq_loop veq (length ea) (length pa) an bn (pa ++ map Some ea ++ qa) (pb ++ map Some eb ++ qb) =
+            Ok (list_eqb veq ea eb, e) /\ use_only an bn (length pa) (length pa + length ea) e.
 Proof.
   induction ea as [|x ea IH]; intros [|y eb] an bn pa qa pb qb Hl Hp; try discriminate.
   - exists []. split; [reflexivity | constructor].
   - cbn [length eq_loop map app list_eqb]. rewrite rd_mid. cbn [bind].
     rewrite Hp. rewrite rd_mid. cbn [bind]. rewrite <- Hp.
-    destruct (N.eqb x y) eqn:E.
+    destruct (veq x y) eqn:E.
     + specialize (IH eb an bn (pa ++ [Some x]) qa (pb ++ [Some y]) qb).
       rewrite !app_length in IH. cbn [length] in IH. rewrite !Nat.add_1_r in IH.
       rewrite <- !app_assoc in IH. cbn [app] in IH.
